@@ -30,6 +30,7 @@ type Solver struct {
 	bin     string
 	cmd     *exec.Cmd
 	in      io.WriteCloser
+	w       *bufio.Writer
 	out     *bufio.Reader
 	Queries int
 	Time    time.Duration
@@ -71,6 +72,7 @@ func (s *Solver) start() error {
 		return err
 	}
 	s.in = in
+	s.w = bufio.NewWriterSize(in, 1<<16)
 	s.out = bufio.NewReaderSize(out, 1<<16)
 	if d := os.Getenv("VERIF_SMTLOG"); d != "" && s.log == nil {
 		f, _ := os.Create(fmt.Sprintf("%s/solver-%d.smt2", d, s.cmd.Process.Pid))
@@ -104,8 +106,8 @@ func (s *Solver) send(line string) {
 	if s.log != nil {
 		fmt.Fprintln(s.log, line)
 	}
-	io.WriteString(s.in, line)
-	io.WriteString(s.in, "\n")
+	s.w.WriteString(line)
+	s.w.WriteByte('\n')
 }
 
 // Reset starts a fresh session (all declarations and assertions dropped).
@@ -197,6 +199,7 @@ func (s *Solver) Push() { s.send("(push 1)") }
 func (s *Solver) Pop()  { s.send("(pop 1)") }
 
 func (s *Solver) readLine() string {
+	s.w.Flush()
 	line, err := s.out.ReadString('\n')
 	if err != nil {
 		return "(error \"solver died: " + err.Error() + "\")"
@@ -272,6 +275,7 @@ func (s *Solver) CheckWith(extra ...*Term) satResult {
 
 // readSexp reads one balanced s-expression from the solver output.
 func (s *Solver) readSexp() string {
+	s.w.Flush()
 	var sb strings.Builder
 	depth := 0
 	started := false
